@@ -231,6 +231,50 @@ class C12(F.Check):
                          key={"n": x, "why": "an iterate squares to n modulo 2^64"}, family="is_perfect_square_closed", native=False)
             ks.append(k)
             self.closed.append(k)
+        # mag<N>() for structured N that a shortcut table / fast path would single out: powers of 10, 2, 3, 5, 6, 12, 60, 1000, 1024,
+        # factorials, primorials, every N up to 130, numbers around 2^k, and seeded smooth numbers - each must be the canonical factorisation
+        structured = set(range(1, 131))
+        for b in (2, 3, 5, 6, 7, 10, 12, 60, 100, 1000, 1024, 3600):
+            x = b
+            while x < (1 << 64):
+                structured.add(x)
+                x *= b
+        f = 1
+        for i in range(1, 21):
+            f *= i
+            structured.add(f)
+        pr = 1
+        for q in sympy.primerange(2, 60):
+            pr *= int(q)
+            if pr < (1 << 64):
+                structured.add(pr)
+        for k_ in (8, 16, 31, 32, 63):
+            structured |= {(1 << k_) - 1, (1 << k_) + 1}
+        structured.add((1 << 64) - 1)
+        rr = self.rng
+        for _ in range(40 if self.tier == "quick" else 400):
+            x = 1
+            for q in rr.sample([2, 3, 5, 7, 11, 13, 17, 19, 23, 29, 31, 37, 101, 257, 541, 547, 65537], rr.randrange(1, 6)):
+                x *= q ** rr.randrange(1, 12)
+            if x < (1 << 64):
+                structured.add(x)
+        if self.tier == "quick":
+            keep = set(range(1, 131, 7)) | {10 ** k_ for k_ in range(1, 20)} | {2 ** k_ for k_ in range(1, 64, 3)} | {1000 ** k_ for k_ in range(1, 7)} | {1024 ** k_ for k_ in range(1, 7)}
+            structured = {x for x in structured if x in keep or x > 130 and hash((x, self.seed)) % 3 == 0}
+        structured = sorted(x for x in structured if 1 <= x < (1 << 64))
+        self.extra_cov["structured_mag_arguments"] = len(structured)
+        for i in range(0, len(structured), 8):
+            chunk = structured[i:i + 8]
+            conds = []
+            for x in chunk:
+                fac = sympy.factorint(x) if x > 1 else {}
+                expected = " * ".join(("pow<%d>(Magnitude<Prime<%dull>>{})" % (e_, p_)) if e_ > 1 else ("Magnitude<Prime<%dull>>{}" % p_)
+                                      for p_, e_ in sorted(fac.items())) or "Magnitude<>{}"
+                conds.append("std::is_same<decltype(mag<%dull>()), decltype(%s)>::value" % (x, expected))
+            k = F.Kernel("c12_structured_%d" % (i // 8), "bool", [], "return %s;" % " && ".join(conds),
+                         key={"numbers": chunk}, family="factorisation_structured", native=False)
+            ks.append(k)
+            self.closed.append(k)
         # products: mag<a>() * mag<b>() == mag<a*b>()
         prods = [(2047, 3277), (561, 1729), (65521, 65537), (2147483647, 4294967291), (4294967291, 4294967311), (5459, 5777),
                  (1 << 16, 3 ** 10), (2147483629, 2147483647)]
